@@ -73,6 +73,9 @@ def gen_item(rnd: random.Random, depth: int, caps: List[str], spine: bool) -> An
         op = rnd.choice(["$or", "$and", "$and_any_order", "$not"])
         n = 1 if op == "$not" else rnd.choice([2, 2, 3])
         kids = [gen_item(rnd, depth - 1, caps, False) for _ in range(n)]
+        if op != "$not" and rnd.random() < 0.25:
+            # an operator nested directly in the same operator
+            kids[rnd.randrange(len(kids))] = {op: [rnd.choice(MN), rnd.choice(MN)]}
         t = gen_times(rnd) if not spine or rnd.random() < 0.5 else None
         d: Dict[str, Any] = {op: kids}
         if t is not None:
@@ -341,7 +344,7 @@ def macro_cases(rnd: random.Random, n: int):
                 pat[i] = nm if rnd.random() < 0.6 else {nm: {"times": rnd.choice([1, 2])}}
         # parameterised macro with two calls whose arguments differ
         if rnd.random() < 0.6:
-            a1, a2 = rnd.sample(OPN, 2)
+            a1, a2 = rnd.sample(OPN + [0, 1], 2)        # immediates are written as YAML integers too (0 is falsy)
             b1, b2 = rnd.sample(OPN, 2)
             macros.append({"name": "@two", "args": ["x", "y"], "pattern": [{"mov": ["x", "y"]}]})
             pat.append({"@two": {"x": a1, "y": b1}})
@@ -410,7 +413,7 @@ def resolver_sweep() -> Tuple[Dict[str, Any], List[Dict[str, Any]]]:
     dicts = [{"mov": l} for l in lists] + [{"$deref": {"main_reg": a, "constant_offset": b}} for a in leaves for b in leaves]
     level2 = [[d] for d in dicts] + [[{"$or": [d1, d2]}] for d1 in dicts[:6] for d2 in dicts[6:12]] + \
              [[{"$and": [d, a]}] for d in dicts[:9] for a in leaves]
-    values = ["y", "x", "rbx", {"$or": ["p", "q"]}, 7]
+    values = ["y", "x", "rbx", {"$or": ["p", "q"]}, 7, 0]
     cases = []
     for body in level2:
         for formals in (["x"], ["x", "y"]):
@@ -427,8 +430,8 @@ def resolver_sweep() -> Tuple[Dict[str, Any], List[Dict[str, Any]]]:
             viol.append({"input": {"macro": macro, "call": call}, "real": r, "expected": want,
                          "disagreement": "MacroArgsResolver.resolve is not the simultaneous substitution of the argument values for the formal parameters"})
     return {"resolver_sweep": {"cases": len(cases), "exhaustive": True,
-                               "bound": "bodies of depth <= 3 (one item: mov/$deref/$or/$and over leaves x, y, rax), 1-2 formals, 5 argument values "
-                                        "(incl. a value spelled like the other formal, a subtree, an integer)"}}, viol[:5]
+                               "bound": "bodies of depth <= 3 (one item: mov/$deref/$or/$and over leaves x, y, rax), 1-2 formals, 6 argument values "
+                                        "(incl. a value spelled like the other formal, a subtree, the integers 7 and 0)"}}, viol[:5]
 
 
 def undefined_macro_sweep() -> Tuple[Dict[str, Any], List[Dict[str, Any]]]:
@@ -577,6 +580,8 @@ def parser_lines(rnd: random.Random, n: int) -> List[str]:
             annot = ""
         if rnd.random() < 0.12:      # prefixes / pseudo prefixes printed before the mnemonic
             mn = rnd.choice(["lock", "rep", "repz", "data16", "{vex}", "{evex}", "notrack", "bnd", "cs", "addr32", "rex.W"]) + " " + mn
+        if rnd.random() < 0.03:      # a lone prefix byte is printed as a one-token instruction
+            mn, ops, annot = rnd.choice(["data16", "lock", "rep", "cs", "rex.W", "addr32"]), "", ""
         nb = rnd.randrange(1, 8)
         byt = " ".join(format(rnd.randrange(256), "02x") for _ in range(nb))
         pad = " " * rnd.choice([0, 2, 4])
